@@ -185,7 +185,44 @@ theorem inv_reachable (ops : List Op) : Inv (run good {} ops).1 := by
 
 /-- the source has that mechanism (regenerated on every run) -/
 theorem mech_objcache : Generated.CacheMech.objTransitive = true ∧ Generated.CacheMech.objViewsLinked = true ∧
-    Generated.CacheMech.objRefPosRegistered = true := by decide
+    Generated.CacheMech.objRefPosRegistered = true ∧ Generated.CacheMech.objFinalizeLinked = true := by decide
+
+/-! #### The tables of `_position.py` (regenerated from the `ast` on every run): who writes what -/
+
+open Midgard.ObjCache.Table in
+/-- **Every writer clears**: each method of `_position.py` that changes contents or attributes in place (`__setitem__`,
+`__setattr__`, `__delitem__`, `__delattr__`, property setters — whatever the source has) drops the cache(s) as its first
+statement.  A setter that does not is a failed obligation; its name is the row of `Generated.CacheMech.mutators` with `false`. -/
+theorem every_writer_clears : ∀ m ∈ Generated.CacheMech.mutators, m.clearsFirst = true := by decide
+
+open Midgard.ObjCache.Table in
+/-- the two entry points of the object machine (`setItem`, `setOther`) are overridden in `PosBase` (not vacuous: without
+the overrides NumPy's own `__setitem__` would change the contents and nothing would be cleared) -/
+theorem entry_points_present :
+    (⟨"PosBase", "__setitem__", true⟩ : Mutator) ∈ Generated.CacheMech.mutators ∧
+    (⟨"PosBase", "__setattr__", true⟩ : Mutator) ∈ Generated.CacheMech.mutators := by decide
+
+open Midgard.ObjCache.Table in
+/-- **Cache entries are keyed by what they depend on**: every store into a per-object `_cache` happens in a method whose only
+parameter besides `self` is (at most) the name of the target system — no entry is computed from another object handed in
+as an argument (such an entry could not be invalidated: the argument does not know the object as a dependent). -/
+theorem cache_entries_self_keyed : ∀ w ∈ Generated.CacheMech.cacheWrites, w.selfKeyed = true := by decide
+
+open Midgard.ObjCache.Table in
+/-- **No attribute is stored behind the back of `__setattr__`** (which clears the cache and registers the object as a
+dependent of an attached `other` / `ref_pos`), except by `__setattr__` itself and by `clear_cache` resetting `_cache`. -/
+theorem only_known_bypasses :
+    Generated.CacheMech.attrWrites.filter AttrWrite.bypasses =
+      [⟨"PosBase", "__setattr__", "key", "bypass"⟩, ⟨"PosBase", "clear_cache", "'_cache'", "bypass"⟩] := by decide
+
+/-- the model's `setItem` / `setOther` do what `every_writer_clears` reads off the source: the caches of the changed object
+are dropped by the step itself (whatever was cached before) -/
+theorem setItem_clears_own (s : State) (p k : Nat) (v : Val) (po : Obj) (r : Nat) (hp : s.objs[p]? = some po)
+    (hk : po.idx[k]? = some r) :
+    ((step good s (.setItem p k v)).1.objs[p]?).map (fun o => (o.conv, o.der)) = some (none, none) := by
+  have hlt : p < s.objs.length := (List.getElem?_eq_some_iff.mp hp).1
+  have hmem : p ∈ clearSet good s p := (clearSet_closed s p hlt).1
+  simp [step, hp, hk, clearCaches, hmem]
 
 /-- without transitive clearing (the code before 37f48d7): writing through a view of a view leaves
 the grandparent's cached conversion stale -/
@@ -232,3 +269,8 @@ end Midgard.Props.C08.Obj
 #print axioms Midgard.Props.C08.Obj.mech_objcache
 #print axioms Midgard.Props.C08.Obj.witness_not_transitive
 #print axioms Midgard.Props.C08.Obj.witness_views_unlinked
+#print axioms Midgard.Props.C08.Obj.every_writer_clears
+#print axioms Midgard.Props.C08.Obj.entry_points_present
+#print axioms Midgard.Props.C08.Obj.cache_entries_self_keyed
+#print axioms Midgard.Props.C08.Obj.only_known_bypasses
+#print axioms Midgard.Props.C08.Obj.setItem_clears_own
